@@ -11,6 +11,56 @@ impl<'a> AsRef<[u8]> for QName<'a> {
 //@end
 }
 
+//@extract name::LocalName | src/name.rs :: struct LocalName | serves=C04
+//@rewrite pub(crate) &'a [u8] ==> pub &'a [u8]
+ pub struct LocalName<'a>(pub &'a [u8]);
+//@end
+impl<'a> QName<'a> {
+//@extract name::QName::index | src/name.rs :: impl<'a> QName<'a> :: fn index | serves=C04,C05
+    fn index(&self) -> (r: Option<usize>)
+        ensures match r {
+            Some(i) => first_colon(self.0@, i as int),
+            None => forall|j: int| 0 <= j < self.0@.len() ==> #[trigger] self.0@[j] != 0x3a,
+        }
+    {
+        memchr(b':', self.0)
+    }
+//@end
+}
+impl<'a> AsRef<[u8]> for LocalName<'a> {
+//@extract name::LocalName::as_ref | src/name.rs :: impl<'a> AsRef<[u8]> for LocalName<'a> :: fn as_ref | serves=C04
+    fn as_ref(&self) -> (r: &[u8])
+        ensures r@ == self.0@
+    {
+        self.0
+    }
+//@end
+}
+impl<'a> vstd::std_specs::convert::FromSpecImpl<QName<'a>> for LocalName<'a> {
+    open spec fn obeys_from_spec() -> bool { false }
+    open spec fn from_spec(e: QName<'a>) -> Self { arbitrary() }
+}
+impl<'a> From<QName<'a>> for LocalName<'a> {
+//@extract name::LocalName::from | src/name.rs :: impl<'a> From<QName<'a>> for LocalName<'a> :: fn from | serves=C04,C05
+    fn from(name: QName<'a>) -> (r: Self)
+        ensures r.0@ == spec_local_name(name.0@)
+    {
+        proof { axiom_slice_len(name.0); lemma_local_name(name.0@); }
+        Self(name.index().map_or(name.0, |i: usize| -> (q: &'a [u8]) requires first_colon(name.0@, i as int) ensures q@ == name.0@.subrange(i + 1, name.0@.len() as int) { &name.0[i + 1..] }))
+    }
+//@end
+}
+impl<'a> BytesStart<'a> {
+//@extract events::BytesStart::local_name | src/events/mod.rs :: impl<'a> BytesStart<'a> :: fn local_name | serves=C04
+ fn local_name(&self) -> (r: LocalName)
+        requires self.name_len <= self.buf@.len()
+        ensures r.0@ == spec_local_name(self.buf@.subrange(0, self.name_len as int))
+ {
+        self.name().into()
+    }
+//@end
+}
+
 pub mod state_ {
 use super::*;
 use vstd::prelude::*;
